@@ -1,5 +1,7 @@
 import PsyVerif.Model.Proto
 import PsyVerif.Model.ExprIO
+import PsyVerif.Model.ExprIOCanon
+import PsyVerif.Gen.IntrinsicArgs
 open Proto C02
 
 /-! Line protocol of the C02 model.
@@ -8,7 +10,13 @@ open Proto C02
 * `(p <tok> ...)` → the tree `parse` returns, or `none`
 * `(n <expr>)`    → `norm`, or `none`
 * `(c <expr>)`    → `1`/`0` : litsCanonical
+* `(r <tok> ...)` → the tree `read liveCfg` returns (grammar + canonicalisation of intrinsic arguments), or `none`
+* `(kn <expr>)`   → `(norm e).bind (canonTree liveCfg)`: what the full reader gives back for the written tree, or `none`
+* `(m <expr>)`    → `1`/`0` : mmsCanonical liveCfg
+* `(cm <args>)`   → `canonMMS liveCfg` on an argument list: `(ok <args>)` or `(err generation|internal|notImplemented|index)`
 -/
+
+def liveCfg : IntrCfg := ⟨C02.Gen.mmsFns, C02.Gen.kwArray, C02.Gen.kwDim, C02.Gen.kwMask⟩
 
 def unops : List UnOp := [.minus, .plus, .not]
 def binops : List BinOp :=
@@ -126,6 +134,28 @@ def handle (s : Sexp) : String :=
   | .list [.atom "c", e] =>
     match rdExpr e with
     | some e => shBool (litsCanonical e)
+    | none => "bad-input"
+  | .list (.atom "r" :: ts) =>
+    match ts.mapM rdTok with
+    | some ts => (match read liveCfg ts with | some e => shExpr e | none => "none")
+    | none => "bad-input"
+  | .list [.atom "kn", e] =>
+    match rdExpr e with
+    | some e => (match (norm e).bind (canonTree liveCfg) with | some e' => shExpr e' | none => "none")
+    | none => "bad-input"
+  | .list [.atom "m", e] =>
+    match rdExpr e with
+    | some e => shBool (mmsCanonical liveCfg e)
+    | none => "bad-input"
+  | .list [.atom "cm", e] =>
+    match rdExpr e with
+    | some e =>
+      (match canonMMS liveCfg e with
+       | .ok a => s!"(ok {shExpr a})"
+       | .err .generation => "(err generation)"
+       | .err .internal => "(err internal)"
+       | .err .notImplemented => "(err notImplemented)"
+       | .err .index => "(err index)")
     | none => "bad-input"
   | _ => "bad-input"
 
